@@ -1,6 +1,6 @@
 #!/bin/bash
 # Offline set-up: nothing is built; verify the two interpreters and byte-compile nothing under /tmp.
-set -e
+set -e -o pipefail
 cd "$(dirname "$0")"
 python3-vt -c "import z3, sys; assert z3.get_version_string().startswith('5.'), z3.get_version_string()"
 /venv/bin/python -c "import quansino, os; p=os.path.realpath(os.path.dirname(quansino.__file__)); assert p.startswith('/repo/src'), p"
@@ -17,5 +17,11 @@ for m in ['quansino.mc', 'quansino.moves', 'quansino.operations', 'quansino.util
 print('pyvc self-test: package interpreted,', len(I.loader.modules), 'modules')
 PY
 python3-vt tools/conformance_numpy.py
-python3-vt tools/conformance_arrays.py | head -3
+python3-vt tools/conformance_arrays.py > .run/conformance_arrays.log || { tail -5 .run/conformance_arrays.log; exit 1; }
+head -3 .run/conformance_arrays.log
+python3-vt tools/conformance_interp.py > .run/conformance_interp.log || { tail -20 .run/conformance_interp.log; exit 1; }
+tail -1 .run/conformance_interp.log
+/venv/bin/python tools/conformance_ase.py --gen .run/ase_cases.json | tail -1
+python3-vt tools/conformance_ase.py --check .run/ase_cases.json > .run/conformance_ase.log || { tail -20 .run/conformance_ase.log; exit 1; }
+tail -1 .run/conformance_ase.log
 echo setup-ok
